@@ -100,12 +100,89 @@ def frame_pairs() -> t.List[t.Tuple[int, int]]:
     return [(s, e) for s in starts for e in ends if pos(s) <= pos(e)]
 
 
-def mk_ops(part: t.List[str], order: t.List[t.Tuple[str, str]], frame: t.Optional[t.Tuple[str, int, int]]) -> t.List[dict]:
+def kparts(k: t.Sequence[t.Any]) -> t.Tuple[str, str, t.Any]:
+    """an order key of a case: [name, form] (plain column) or [name, form, expr] (expression key; `name` is the
+    name of the computed column the Lean model evaluates the expression into)"""
+    return k[0], k[1], (tuple_(k[2]) if len(k) > 2 and k[2] is not None else None)
+
+
+def name_keys(order: t.Sequence[t.Sequence[t.Any]]) -> t.List[list]:
+    """give every expression key (name None) a fresh computed-column name"""
+    out, i = [], 0
+    for k in order:
+        if len(k) > 2 and k[2] is not None:
+            out.append([f"k{i}", k[1], k[2]])
+            i += 1
+        else:
+            out.append([k[0], k[1]])
+    return out
+
+
+def k_lower(e: t.Any) -> tuple:
+    """function-call keys in the shared expression vocabulary (what the Lean model evaluates)"""
+    e = tuple_(e)
+    if e[0] == "abs":
+        a = k_lower(e[1])
+        return ("ite", ("bin", "lt", a, ("lit", 0)), ("neg", a), a)
+    if e[0] == "coalesce":
+        a, b = k_lower(e[1]), k_lower(e[2])
+        return ("ite", ("isNull", a), b, a)
+    return tuple(k_lower(x) if isinstance(x, tuple) else x for x in e)
+
+
+def k_column(e: t.Any, F: t.Any) -> t.Any:
+    e = tuple_(e)
+    if e[0] == "abs":
+        return F.abs(k_column(e[1], F))
+    if e[0] == "coalesce":
+        return F.coalesce(k_column(e[1], F), k_column(e[2], F))
+    return X.to_column(e, F)  # abs / coalesce only occur at the top of a key
+
+
+def k_show(e: t.Any) -> str:
+    e = tuple_(e)
+    if e[0] == "abs":
+        return f"F.abs({k_show(e[1])})"
+    if e[0] == "coalesce":
+        return f"F.coalesce({k_show(e[1])}, {k_show(e[2])})"
+    return X.show(e)
+
+
+def k_aliased(e: t.Any) -> bool:
+    """is the python Column an alias?  every F.<function>() result is auto-aliased (checked live by exercise_gen)"""
+    return tuple_(e)[0] in ("ite", "abs", "coalesce")
+
+
+KEY_EXPRS: t.List[tuple] = [
+    ("abs", ("col", "v")),
+    ("coalesce", ("col", "u"), ("col", "v")),
+    ("neg", ("col", "v")),
+    ("bin", "add", ("col", "v"), ("lit", 1)),
+    ("bin", "add", ("col", "v"), ("col", "id")),
+    ("bin", "sub", ("lit", 0), ("col", "u")),
+    ("bin", "mul", ("col", "v"), ("col", "u")),
+    ("ite", ("bin", "gt", ("col", "v"), ("lit", 0)), ("col", "v"), ("col", "u")),
+    ("ite", ("isNull", ("col", "u")), ("col", "v"), ("neg", ("col", "v"))),
+]
+EXPR_FORMS = ["bare_col"] + [f for f in FORMS if not f.startswith("bare")]
+
+
+def with_null(rows: t.List[t.List[t.Any]], col: str) -> t.List[t.List[t.Any]]:
+    """make sure the column has a NULL (and a non-NULL) so that null placement matters"""
+    i = list(SCHEMA).index(col)
+    if rows and all(r[i] is not None for r in rows):
+        rows[0][i] = None
+    if len(rows) > 1 and all(r[i] is None for r in rows):
+        rows[-1][i] = 1
+    return rows
+
+
+def mk_ops(part: t.List[str], order: t.Sequence[t.Sequence[t.Any]], frame: t.Optional[t.Tuple[str, int, int]]) -> t.List[dict]:
     ops: t.List[dict] = []
     if part:
         ops.append({"op": "partitionBy", "cols": part})
     if order:
-        ops.append({"op": "orderBy", "keys": [[n, f] for n, f in order]})
+        ops.append({"op": "orderBy", "keys": name_keys(order)})
     if frame:
         ops.append({"op": frame[0], "s": frame[1], "e": frame[2]})
     return ops
@@ -125,12 +202,18 @@ def rand_form(rng: random.Random, bare_p: float = 0.2) -> str:
     return rng.choice(EXPLICIT)
 
 
-def rand_order(rng: random.Random, unique: bool, single: bool = False, bare_p: float = 0.2) -> t.List[t.Tuple[str, str]]:
+def rand_key(rng: random.Random, col: str, bare_p: float, expr_p: float) -> tuple:
+    if rng.random() < expr_p:
+        return (None, rng.choice(EXPR_FORMS) if rng.random() >= bare_p else "bare_col", rng.choice(KEY_EXPRS))
+    return (col, rand_form(rng, bare_p))
+
+
+def rand_order(rng: random.Random, unique: bool, single: bool = False, bare_p: float = 0.2, expr_p: float = 0.0) -> t.List[tuple]:
     if single:
-        return [("v", rand_form(rng, bare_p))]
-    keys = [("v", rand_form(rng, bare_p))]
+        return [rand_key(rng, "v", bare_p, expr_p)]
+    keys = [rand_key(rng, "v", bare_p, expr_p)]
     if rng.random() < 0.35:
-        keys.append(("u", rand_form(rng, bare_p)))
+        keys.append(rand_key(rng, "u", bare_p, expr_p))
     if unique:
         keys.append(("id", rng.choice(["asc", "desc", "asc_nulls_last"])))
     return keys
@@ -308,6 +391,27 @@ def cases_for(ctx: Ctx) -> t.List[dict]:
         c["more"] = fns[1:]
         cases.append(c)
 
+    # (11) order keys that are EXPRESSIONS (-c, c + 1, c * d, when(...)) with NULL values, under every way of stating
+    #      the direction (none, asc(), desc(), *_nulls_*), alone and mixed with string / column keys
+    for _ in range(reps):
+        for e in KEY_EXPRS:
+            for form in EXPR_FORMS:
+                for fn in rng.sample([["row_number"], ["rank"], ["dense_rank"], ["sum", "x"], ["count", "x"], ["lag", "x", 1, None], ["first", "x"], ["ntile", 2], ["cume_dist"], ["last", "id"]], 3):
+                    tie_dep = fn[0] in ("row_number", "lag", "first", "last", "ntile")
+                    rows = with_null(with_null(gen_rows(rng, n=rng.choice([4, 5, 6])), "v"), "u")
+                    order = [(None, form, e)] + ([("id", rng.choice(["asc", "desc"]))] if tie_dep else [])
+                    cases.append(mk_case(rows, mk_ops(rand_part(rng), order, None), fn, mode=rng.choice(["select", "withColumn"]), origin="expr-keys"))
+        for form in EXPR_FORMS:
+            for kind, (s, e2) in [("rowsBetween", (-1, 0)), ("rowsBetween", (UP, 0)), ("rowsBetween", (0, UF)), ("rangeBetween", (-1, 1)), ("rangeBetween", (UP, -1)), ("rangeBetween", (0, 2)), ("rangeBetween", (UP, 0))]:
+                e = rng.choice(KEY_EXPRS)
+                rows = with_null(with_null(gen_rows(rng, n=rng.choice([4, 5, 6])), "v"), "u")
+                order = [(None, form, e)] + ([("id", "asc")] if kind == "rowsBetween" else [])
+                cases.append(mk_case(rows, mk_ops(rand_part(rng), order, (kind, s, e2)), [rng.choice(["sum", "count", "max", "min"]), "x"], origin="expr-keys-frames"))
+        for _i in range(20):
+            rows = with_null(gen_rows(rng, n=rng.choice([4, 5, 6])), "v")
+            order = rand_order(rng, unique=True, bare_p=0.4, expr_p=0.6)
+            cases.append(mk_case(rows, mk_ops(rand_part(rng), order, None), rand_fn(rng, rng.choice(["row_number", "rank", "lag", "sum", "first", "dense_rank"])), origin="expr-keys-mixed"))
+
     # (7) random specs
     n_rand = 2500 if ctx.thorough else 260
     kinds = ["row_number", "rank", "dense_rank", "percent_rank", "cume_dist", "ntile", "lag", "lead"] + AGGS
@@ -318,16 +422,16 @@ def cases_for(ctx: Ctx) -> t.List[dict]:
         part = rand_part(rng)
         if kind in NEEDS_ORDER_NO_FRAME:
             tie_dep = kind in ("row_number", "ntile", "lag", "lead")
-            ops = mk_ops(part, rand_order(rng, unique=tie_dep), None)
+            ops = mk_ops(part, rand_order(rng, unique=tie_dep, expr_p=0.2), None)
         else:
             fk = rng.choice([None, "rowsBetween", "rangeBetween"])
             if fk is None:
-                ops = mk_ops(part, rand_order(rng, unique=kind in ("first", "last")), None)
+                ops = mk_ops(part, rand_order(rng, unique=kind in ("first", "last"), expr_p=0.2), None)
             else:
                 s, e = rng.choice(frame_pairs())
                 offs = any(b not in (UP, UF, 0) for b in (s, e))
                 if fk == "rowsBetween":
-                    order = rand_order(rng, unique=True)
+                    order = rand_order(rng, unique=True, expr_p=0.2)
                 elif kind in ("first", "last"):
                     order = [("id", rng.choice(["asc", "desc"]))] if offs else rand_order(rng, unique=True)
                 else:
@@ -353,7 +457,14 @@ def op_to_lean(op: dict) -> t.Any:
     if k == "partitionBy":
         return {"partitionBy": {"cols": op["cols"]}}
     if k == "orderBy":
-        return {"orderBy": {"keys": [{"name": n, "form": LEAN_FORM[f]} for n, f in op["keys"]]}}
+        keys = []
+        for k in op["keys"]:
+            n, f, e = kparts(k)
+            d = {"name": n, "form": LEAN_FORM[f], "aliased": bool(e is not None and k_aliased(e))}
+            if e is not None:
+                d["expr"] = X.to_lean(k_lower(e))
+            keys.append(d)
+        return {"orderBy": {"keys": keys}}
     if k in ("rowsBetween", "rangeBetween"):
         return {k: {"s": op["s"], "e": op["e"]}}
     raise ValueError(k)
@@ -414,7 +525,9 @@ def show_bound(b: int) -> str:
     return {UP: "Window.unboundedPreceding", UF: "Window.unboundedFollowing", 0: "Window.currentRow", EDGE: "-sys.maxsize"}.get(b, str(b))
 
 
-def show_key(n: str, f: str) -> str:
+def show_key(n: str, f: str, e: t.Any = None) -> str:
+    if e is not None:
+        return k_show(e) if f.startswith("bare") else f"{k_show(e)}.{f}()"
     if f == "bare_str":
         return repr(n)
     if f == "bare_col":
@@ -428,7 +541,7 @@ def show_ops(ops: t.List[dict]) -> str:
         if o["op"] == "partitionBy":
             out += ".partitionBy(" + ", ".join(map(repr, o["cols"])) + ")"
         elif o["op"] == "orderBy":
-            out += ".orderBy(" + ", ".join(show_key(n, f) for n, f in o["keys"]) + ")"
+            out += ".orderBy(" + ", ".join(show_key(*kparts(k)) for k in o["keys"]) + ")"
         else:
             out += f".{o['op']}({show_bound(o['s'])}, {show_bound(o['e'])})"
     return out
@@ -477,7 +590,10 @@ def session():
     return _SESSION
 
 
-def real_key(F: t.Any, n: str, f: str) -> t.Any:
+def real_key(F: t.Any, n: str, f: str, e: t.Any = None) -> t.Any:
+    if e is not None:
+        c = k_column(e, F)
+        return c if f.startswith("bare") else getattr(c, f)()
     if f == "bare_str":
         return n
     if f == "bare_col":
@@ -497,7 +613,7 @@ def build_spec(ops: t.List[dict], observe: t.Optional[list] = None) -> t.Any:
         if o["op"] == "partitionBy":
             nw = target.partitionBy(*o["cols"])
         elif o["op"] == "orderBy":
-            nw = target.orderBy(*[real_key(F, n, f) for n, f in o["keys"]])
+            nw = target.orderBy(*[real_key(F, *kparts(k)) for k in o["keys"]])
         elif o["op"] == "rowsBetween":
             nw = target.rowsBetween(o["s"], o["e"])
         elif o["op"] == "rangeBetween":
@@ -536,14 +652,15 @@ def clause_of(w: t.Any) -> dict:
     order = []
     o = e.args.get("order")
     for k in o.expressions if o is not None else []:
+        ordered = None
         if isinstance(k, exp.Ordered):
             nf = k.args.get("nulls_first")
-            inner = k.this
-            order.append([inner.name if isinstance(inner, exp.Column) else {"raw": inner.sql()}, [bool(k.args.get("desc")), None if nf is None else bool(nf)]])
-        elif isinstance(k, exp.Column):
-            order.append([k.name, None])
-        else:
-            order.append([{"raw": k.sql()}, None])
+            ordered = [bool(k.args.get("desc")), None if nf is None else bool(nf)]
+            k = k.this
+        aliased = isinstance(k, exp.Alias)  # `<expr> AS <alias>` inside ORDER BY
+        if aliased:
+            k = k.this
+        order.append([k.name if isinstance(k, exp.Column) else {"raw": k.sql()}, ordered, aliased])
     frame = None
     sp = e.args.get("spec")
     if sp is not None:
@@ -573,6 +690,7 @@ def run_impl(c: dict) -> dict:
         obs: list = []
         w = build_spec(c["ops"], obs)
         out["clause"] = clause_of(w)
+        out["keysql"] = {kparts(k)[0]: k_column(kparts(k)[2], F).column_expression.sql() for o in c["ops"] if o["op"] == "orderBy" for k in o["keys"] if kparts(k)[2] is not None}
         before = w.expression.sql()
         # every Column is built from the ONE spec object before any of them is used
         wcols = [real_fn(F, f).over(w) for f in all_fns(c)]
@@ -597,6 +715,8 @@ def run_impl(c: dict) -> dict:
             out["err"] = "IndexError"
         elif "Overflow" in msg or "overflow" in msg:
             out["err"] = "overflow"
+        elif 'syntax error at or near "AS"' in msg:
+            out["err"] = "engine-rejects"
         else:
             out["err"] = msg
         out["detail"] = msg
@@ -624,7 +744,9 @@ def tie_safe_projection(c: dict) -> t.Optional[t.List[str]]:
     if len(parts) > 1 or len(orders) > 1:
         return None
     pk = list(parts[0]["cols"]) if parts else []
-    ks = [n for n, _ in orders[0]["keys"]] if orders else []
+    if orders and any(kparts(k)[2] is not None for k in orders[0]["keys"]):
+        return None  # the computed key is not a column of the result
+    ks = [k[0] for k in orders[0]["keys"]] if orders else []
     fn = c["fn"]
     k = fn[0]
     if k in ("row_number", "ntile"):
@@ -756,6 +878,16 @@ def evaluate(cases: t.List[dict], workers: int = 0) -> t.List[dict]:
         row_determined = (not tie_dependent(c)) or bool(o["unique"])
         proj = None if row_determined else tie_safe_projection(c)
         determined = row_determined or proj is not None
+        if "clause" in impl and impl.get("keysql"):
+            # an expression key is a computed column in the model: match it with the real key by its SQL text
+            cl = impl["clause"]
+            order = list(cl["order"])
+            for i, it in enumerate(order):
+                if i < len(o["emit"]["order"]) and isinstance(it[0], dict):
+                    mname = o["emit"]["order"][i][0]
+                    if impl["keysql"].get(mname) == it[0].get("raw"):
+                        order[i] = [mname] + list(it[1:])
+            impl = dict(impl, clause=dict(cl, order=order))
         clause_eq = ("clause" in impl and impl["clause"] == o["emit"]) or ("clause" not in impl and "err" in o["model"] and impl.get("err") == o["model"]["err"])
         r = {
             "case": c,
@@ -884,17 +1016,41 @@ def exercise_gen(ctx: Ctx) -> t.Dict[str, t.Any]:
         got = [bool(e.args.get("desc")), None if nf is None else bool(nf)] if isinstance(e, exp.Ordered) else None
         if got != want:
             bad.append(f"Column.{m}(): generated {want} live {got}")
-    # bare key
-    e = BW.orderBy("v").expression.args["order"].expressions[0]
-    if isinstance(e, exp.Ordered):
-        nf = e.args.get("nulls_first")
-        got_bare: t.Any = [bool(e.args.get("desc")), None if nf is None else bool(nf)]
-    else:
-        got_bare = None
-    if got_bare != gen["bareWrap"]:
-        bad.append(f"WindowSpec.orderBy('v') key: generated {gen['bareWrap']} live {got_bare}")
-    # extends / replaces, IndexError on no arguments
+    # keys that state no ordering: plain columns and other expressions
+    def live_wrap(k: t.Any) -> t.Any:
+        e = BW.orderBy(k).expression.args["order"].expressions[0]
+        if isinstance(e, exp.Ordered):
+            nf = e.args.get("nulls_first")
+            return [bool(e.args.get("desc")), None if nf is None else bool(nf)]
+        return None
+
+    for label, k in (("'v'", "v"), ("col('v')", F.col("v"))):
+        if live_wrap(k) != gen["columnWrap"]:
+            bad.append(f"WindowSpec.orderBy({label}) key: generated {gen['columnWrap']} live {live_wrap(k)}")
+    for label, k in (
+        ("-col('v')", -F.col("v")),
+        ("col('v') + 1", F.col("v") + 1),
+        ("col('v') * col('u')", F.col("v") * F.col("u")),
+        ("when(col('v') > 0, col('v')).otherwise(col('u'))", F.when(F.col("v") > 0, F.col("v")).otherwise(F.col("u"))),
+        ("abs(col('v'))", F.abs(F.col("v"))),
+        ("col('v').cast('int')", F.col("v").cast("int")),
+        ("coalesce(col('v'), col('u'))", F.coalesce(F.col("v"), F.col("u"))),
+        ("col('v') % 2", F.col("v") % 2),
+    ):
+        if live_wrap(k) != gen["exprWrap"]:
+            bad.append(f"WindowSpec.orderBy({label}) key: generated {gen['exprWrap']} live {live_wrap(k)}")
+    # which key Columns are aliases (the generator's `k_aliased`), and whether orderBy / partitionBy keep the alias
+    for e in KEY_EXPRS:
+        if k_column(e, F).is_alias != k_aliased(e):
+            bad.append(f"key {k_show(e)}: Column.is_alias is {k_column(e, F).is_alias}, the generator assumes {k_aliased(e)}")
     fl = gen["flags"]
+    for name, flag in (("orderBy", "orderByKeepsAlias"), ("partitionBy", "partitionByKeepsAlias")):
+        ws = getattr(BW, name)(F.abs(F.col("v")))
+        items = ws.expression.args["order"].expressions if name == "orderBy" else ws.expression.args["partition_by"]
+        kept = any(x.find(exp.Alias) is not None for x in items)
+        if kept != fl[flag]:
+            bad.append(f"Window.{name}(F.abs(col('v'))) keeps the alias: live {kept}, generated {fl[flag]}")
+    # extends / replaces, IndexError on no arguments
     p2 = [x.name for x in BW.partitionBy("g").partitionBy("h").expression.args["partition_by"]]
     if (p2 == ["g", "h"]) != fl["partitionByExtends"] or p2 not in (["g", "h"], ["h"]):
         bad.append(f"partitionBy twice: live {p2}, generated extends={fl['partitionByExtends']}")
@@ -925,7 +1081,25 @@ spark = SparkSession.builder.master("local[1]").config("spark.ui.enabled", "fals
 spark.sparkContext.setLogLevel("ERROR")
 cases = json.load(open(sys.argv[1]))
 out = []
-def key(n, f):
+def tocol(e):
+    k = e[0]
+    if k == "col": return F.col(e[1])
+    if k == "lit": return F.lit(e[1])
+    if k == "bin":
+        a, b, op = tocol(e[2]), tocol(e[3]), e[1]
+        return {"add": lambda: a + b, "sub": lambda: a - b, "mul": lambda: a * b, "lt": lambda: a < b, "le": lambda: a <= b, "gt": lambda: a > b,
+                "ge": lambda: a >= b, "eq": lambda: a == b, "ne": lambda: a != b, "and": lambda: a & b, "or": lambda: a | b, "nseq": lambda: a.eqNullSafe(b)}[op]()
+    if k == "not": return ~tocol(e[1])
+    if k == "neg": return -tocol(e[1])
+    if k == "isNull": return tocol(e[1]).isNull()
+    if k == "ite": return F.when(tocol(e[1]), tocol(e[2])).otherwise(tocol(e[3]))
+    if k == "abs": return F.abs(tocol(e[1]))
+    if k == "coalesce": return F.coalesce(tocol(e[1]), tocol(e[2]))
+    raise ValueError(e)
+def key(n, f, e=None):
+    if e is not None:
+        c = tocol(e)
+        return c if f.startswith("bare") else getattr(c, f)()
     if f == "bare_str": return n
     if f == "bare_col": return F.col(n)
     return getattr(F.col(n), f)()
@@ -941,7 +1115,7 @@ for c in cases:
         for o in c["ops"]:
             t = Window if w is None else w
             if o["op"] == "partitionBy": w = t.partitionBy(*o["cols"])
-            elif o["op"] == "orderBy": w = t.orderBy(*[key(n, f) for n, f in o["keys"]])
+            elif o["op"] == "orderBy": w = t.orderBy(*[key(*k) for k in o["keys"]])
             else: w = getattr(t, o["op"])(o["s"], o["e"])
         if w is None: w = Window.partitionBy()
         ddl = ", ".join(f"{n} {'bigint' if k == 'int' else 'string'}" for n, k in c["schema"].items())
@@ -979,6 +1153,7 @@ def validate_spec_on_pyspark(ctx: Ctx, res: t.List[dict], limit: int) -> t.Dict[
     pool.sort(key=lambda r: r["case"].get("origin", ""))
     step = max(1, len(pool) // limit)
     first = [r for r in pool if r["case"].get("origin", "").startswith(("corpus", "chain-", "grid-sentinels"))]
+    first += [r for r in pool if r["case"].get("origin", "").startswith("expr-keys")][::4][:80]
     sample = (first + [r for r in pool[::step] if r not in first])[:limit]
     outs = run_pyspark([r["case"] for r in sample])
     if outs is None:
@@ -1045,7 +1220,8 @@ def run(ctx: Ctx) -> None:
         frame_hist[fk] = frame_hist.get(fk, 0) + 1
         for o in c["ops"]:
             if o["op"] == "orderBy":
-                for _, f in o["keys"]:
+                for k in o["keys"]:
+                    f = k[1] + ("(expr)" if kparts(k)[2] is not None else "")
                     form_hist[f] = form_hist.get(f, 0) + 1
         origin_hist[c.get("origin", "?").split(":")[0]] = origin_hist.get(c.get("origin", "?").split(":")[0], 0) + 1
         if r["compared_spec"] and "rows" in r["impl"] and len({json.dumps(x[-1]) for x in r["impl"]["rows"]}) > 1:
